@@ -379,7 +379,7 @@ func init() {
 		},
 		Teardown: closeEngine,
 		Strata: []*fw.Stratum{
-			{Name: "modes-agree/valid", Quick: 12000, Thorough: 100000, Run: func(t *fw.T) {
+			{Name: "modes-agree/valid", Quick: 30000, Thorough: 150000, Run: func(t *fw.T) {
 				r := t.Rand()
 				_, rd := randProgram(r)
 				checkModesAgree(t, rd.Src, "valid")
@@ -397,9 +397,9 @@ func init() {
 				checkModesAgree(t, src, "malformed")
 				t.Distinct(src)
 			}},
-			{Name: "tolerant", Quick: 12000, Thorough: 100000, Run: runC13Tolerant},
-			{Name: "smart", Quick: 12000, Thorough: 100000, Run: runC13Smart},
-			{Name: "builder-reconfigured-after-build", Quick: 12000, Thorough: 100000, PanicInconclusive: true, Run: runC13Reconfigure},
+			{Name: "tolerant", Quick: 40000, Thorough: 200000, Run: runC13Tolerant},
+			{Name: "smart", Quick: 40000, Thorough: 200000, Run: runC13Smart},
+			{Name: "builder-reconfigured-after-build", Quick: 24000, Thorough: 100000, PanicInconclusive: true, Run: runC13Reconfigure},
 			{Name: "smart-inside-expression-observed", Quick: 300, Thorough: 3000, PanicInconclusive: true, Run: func(t *fw.T) {
 				r := t.Rand()
 				g := gen.NewSyn(r, gen.SynOpts{ExprDepth: 3, StmtDepth: 1, MaxStmts: 3})
